@@ -17,7 +17,7 @@ const bytequeuePath = "github.com/basecomplextech/baselibrary/alloc/bytequeue"
 // that queue field comes from the unbounded constructor bytequeue.New().
 
 func init() {
-	register(&Rule{ID: "R03.6", Props: []string{"C03"}, Floor: 4,
+	register(&Rule{ID: "R03.6", Props: []string{"C03"}, Floor: 3,
 		Doc: "no silent drop: every bytequeue Write in package mpx either consumes its 'written' result or writes to a queue field that is only ever constructed unbounded (bytequeue.New)",
 		Run: runR03_6})
 }
